@@ -3,11 +3,18 @@
 //
 // Request grammar:
 //   c02.channels <shards> <pad> <records>
-//       honest malicious-mode hybrid query with a recording interceptor; response: sorted list of
-//       `<gate>|<src>><dst>|<bytes>` separated by `;`  (helper-to-helper channels only)
-//   c02.tamper <shards> <pad> <records> <corrupt H1|H2|H3> <dest H1|H2|H3> <pattern> <gate>
-//       same query, with the interceptor altering the traffic `corrupt -> dest` on `gate`:
-//       pattern = flip:<byte offset>:<bit>  |  add:<byte offset>:<delta>  |  zero  |  swap
+//       honest malicious-mode hybrid query with a recording interceptor; response: every observed chunk in the
+//       order in which the receiving side pulled it (consecutive chunks of one channel merged), `,`-separated:
+//       `<gate>|m|<src><dst>|<shard or ->`  helper-to-helper,  `<gate>|x|<helper>|<src>><dst>`  shard-to-shard
+//   c02.shardtraffic <shards> <pad> <records>
+//       same run; response: the shard-to-shard gates (normalised) with chunk counts, `<gate>:<n>` `,`-separated
+//   c02.tamper <shards> <pad> <records> <corrupt H1|H2|H3> <actions>
+//       same query; the interceptor alters messages sent by (or, to keep its own view in step, received by) the corrupt helper. actions (`,`-separated, all applied
+//       in the same run): `<src><dst>|<shard or ->|<pattern>|<gate>` (src or dst = the corrupt helper); pattern =
+//         flip:<byte offset>:<bit> | add:<byte offset>:<delta> | zero | swap          (blind, byte level)
+//         f25:<elem>:<p|m><delta> | f61:<elem>:<p|m><delta>    additive offset on field element <elem> of the channel
+//         swaprec:<size>:<a>:<b> | replay:<size>:<from>:<to>   records of <size> bytes swapped / replayed
+//         macshift:<size>:<row>:<word>:<delta>    MAC-consistent change of a shuffle row (delta in the word, key*delta in the tag)
 //       response: `abort-or-same abort:<kind>` | `abort-or-same same` | `changed <histogram>` | `untouched`
 use std::sync::{Arc, Mutex};
 
@@ -16,7 +23,11 @@ use futures::future::try_join3;
 use super::{c01, proto::*};
 use crate::{
     error::Error,
-    ff::{U128Conversions, boolean_array::{BA3, BA8, BA32}},
+    ff::{
+        Field, Fp61BitPrime, Gf32Bit, Serializable, U128Conversions,
+        boolean_array::{BA3, BA8, BA32},
+        ec_prime_field::Fp25519,
+    },
     helpers::{
         HelperIdentity, Role, RoleAssignment,
         in_memory_config::{InspectContext, StreamInterceptor},
@@ -24,7 +35,10 @@ use crate::{
     },
     protocol::{hybrid::hybrid_protocol, ipa_prf::oprf_padding::PaddingParameters},
     report::hybrid::{HybridReport, IndistinguishableHybridReport},
-    secret_sharing::{IntoShares, replicated::semi_honest::AdditiveShare as Replicated},
+    secret_sharing::{
+        IntoShares,
+        replicated::{ReplicatedSecretSharing, semi_honest::AdditiveShare as Replicated},
+    },
     test_fixture::{Reconstruct, TestWorld, TestWorldConfig, WithShards, hybrid::TestHybridRecord},
 };
 
@@ -35,68 +49,207 @@ pub enum Pattern {
     Add(usize, u8),
     Zero,
     Swap,
+    /// additive offset on field element `elem` of the channel (little-endian elements of `size` bytes):
+    /// `f25:<elem>:<p|m><delta>` (Fp25519, 32 bytes; the offset is the field element `Fp25519::from(delta)`,
+    /// `m` = its negation), `f61:<elem>:<p|m><delta>` (Fp61BitPrime, 8 bytes)
+    FieldAdd { f61: bool, elem: usize, neg: bool, delta: u64 },
+    /// swap records `a` and `b` (of `size` bytes each) if both travel in the same chunk
+    SwapRec { size: usize, a: usize, b: usize },
+    /// overwrite record `to` with the bytes of the earlier record `from`
+    Replay { size: usize, from: usize, to: usize },
+    /// MAC-consistent change of a shuffle row (rows of `size` bytes = data ++ 4-byte tag): `delta` is XORed into
+    /// 32-bit word `word` of row `row` and `key(word) * delta` (GF(2^32)) into its tag. `macshift:<size>:<row>:<word>:<delta>`;
+    /// the key is the one opened on `verify_shuffle/reveal_m_a_c_key` (see `exec`).
+    MacShift { size: usize, row: usize, word: usize, delta: u32 },
+}
+
+pub struct Action {
+    /// (full gate, src, dst, shard)
+    pub key: (String, u8, u8, Option<u32>),
+    pub pattern: Pattern,
+    pub saved: Mutex<Option<Vec<u8>>>,
+    /// for `MacShift`: the opened MAC key of the altered word
+    pub mac_key: Option<u32>,
+}
+
+/// one observed chunk, in the order in which the receiving side pulled it
+#[derive(Clone, Debug)]
+pub struct Ev {
+    pub gate: String,
+    /// `true`: helper-to-helper message (`a` = source helper, `b` = destination helper, `shard`);
+    /// `false`: shard-to-shard message inside helper `a` (`b` unused; `shards` = (source, dest))
+    pub mpc: bool,
+    pub a: u8,
+    pub b: u8,
+    pub shard: Option<u32>,
+    pub shards: (u32, u32),
+    pub len: usize,
 }
 
 #[derive(Default)]
 pub struct Recorder {
-    /// (gate, src, dst) -> bytes seen
-    pub seen: Mutex<std::collections::BTreeMap<(String, u8, u8), usize>>,
-    pub target: Option<(String, u8, u8)>,
-    pub pattern: Option<Pattern>,
+    /// (gate, src, dst, shard) -> bytes seen (helper-to-helper channels)
+    pub seen: Mutex<std::collections::BTreeMap<(String, u8, u8, Option<u32>), usize>>,
+    pub events: Mutex<Vec<Ev>>,
+    pub actions: Vec<Action>,
     pub hits: Mutex<usize>,
+    /// bytes seen on the key-opening gates of the shuffles (`…/verify_shuffle/reveal_m_a_c_key`)
+    pub key_msgs: Mutex<std::collections::BTreeMap<(String, u8, u8, Option<u32>), Vec<u8>>>,
 }
 
 fn hid(h: HelperIdentity) -> u8 {
     if h == HelperIdentity::ONE { 1 } else if h == HelperIdentity::TWO { 2 } else { 3 }
 }
 
+fn field_add(slot: &mut [u8], f61: bool, neg: bool, delta: u64) {
+    if f61 {
+        let d = Fp61BitPrime::truncate_from(u128::from(delta));
+        let v = Fp61BitPrime::deserialize_from_slice(slot);
+        let v = if neg { v - d } else { v + d };
+        v.serialize_to_slice(slot);
+    } else {
+        let d = Fp25519::from(delta);
+        let v = Fp25519::deserialize_from_slice(slot);
+        let v = if neg { v - d } else { v + d };
+        v.serialize_to_slice(slot);
+    }
+}
+
+impl Recorder {
+    fn apply(&self, act: &Action, offset_before: usize, data: &mut Vec<u8>) {
+        let hit = || *self.hits.lock().unwrap() += 1;
+        let end = offset_before + data.len();
+        match &act.pattern {
+            Pattern::Flip(off, bit) => {
+                // offset counted over the whole channel
+                if *off >= offset_before && *off < end {
+                    data[*off - offset_before] ^= 1 << bit;
+                    hit();
+                }
+            }
+            Pattern::Add(off, d) => {
+                if *off >= offset_before && *off < end {
+                    let i = *off - offset_before;
+                    data[i] = data[i].wrapping_add(*d);
+                    hit();
+                }
+            }
+            Pattern::Zero => {
+                if offset_before == 0 && data.iter().any(|b| *b != 0) {
+                    for b in data.iter_mut() {
+                        *b = 0;
+                    }
+                    hit();
+                }
+            }
+            Pattern::Swap => {
+                if offset_before == 0 && data.len() >= 2 {
+                    let n = data.len();
+                    if data[0] != data[n - 1] {
+                        data.swap(0, n - 1);
+                        hit();
+                    }
+                }
+            }
+            Pattern::FieldAdd { f61, elem, neg, delta } => {
+                let size = if *f61 { 8 } else { 32 };
+                let lo = elem * size;
+                if lo >= offset_before && lo + size <= end {
+                    let i = lo - offset_before;
+                    // a canonical encoding is required by `deserialize`; anything else is left alone
+                    let ok = guarded(|| {
+                        let mut slot = data[i..i + size].to_vec();
+                        field_add(&mut slot, *f61, *neg, *delta);
+                        slot
+                    });
+                    if let Ok(slot) = ok {
+                        data[i..i + size].copy_from_slice(&slot);
+                        hit();
+                    }
+                }
+            }
+            Pattern::SwapRec { size, a, b } => {
+                let (la, lb) = (a * size, b * size);
+                if la >= offset_before && lb >= offset_before && la + size <= end && lb + size <= end && a != b {
+                    let (ia, ib) = (la - offset_before, lb - offset_before);
+                    let ra = data[ia..ia + size].to_vec();
+                    let rb = data[ib..ib + size].to_vec();
+                    if ra != rb {
+                        data[ia..ia + size].copy_from_slice(&rb);
+                        data[ib..ib + size].copy_from_slice(&ra);
+                        hit();
+                    }
+                }
+            }
+            Pattern::Replay { size, from, to } => {
+                let (lf, lt) = (from * size, to * size);
+                if lf >= offset_before && lf + size <= end {
+                    let i = lf - offset_before;
+                    *act.saved.lock().unwrap() = Some(data[i..i + size].to_vec());
+                }
+                if lt >= offset_before && lt + size <= end {
+                    if let Some(sv) = act.saved.lock().unwrap().clone() {
+                        let i = lt - offset_before;
+                        if data[i..i + size] != sv[..] {
+                            data[i..i + size].copy_from_slice(&sv);
+                            hit();
+                        }
+                    }
+                }
+            }
+            Pattern::MacShift { size, row, word, delta } => {
+                let lo = row * size;
+                if let (Some(k), true) = (act.mac_key, lo >= offset_before && lo + size <= end && 4 * word + 4 <= size - 4) {
+                    let i = lo - offset_before;
+                    let d = Gf32Bit::truncate_from(u128::from(*delta));
+                    let t = (Gf32Bit::truncate_from(u128::from(k)) * d).as_u128() as u32;
+                    for (b, x) in data[i + 4 * word..i + 4 * word + 4].iter_mut().zip(delta.to_le_bytes()) {
+                        *b ^= x;
+                    }
+                    for (b, x) in data[i + size - 4..i + size].iter_mut().zip(t.to_le_bytes()) {
+                        *b ^= x;
+                    }
+                    hit();
+                }
+            }
+            Pattern::None => {}
+        }
+    }
+}
+
 impl StreamInterceptor for Recorder {
     type Context = InspectContext;
 
     fn peek(&self, ctx: &InspectContext, data: &mut Vec<u8>) {
-        if let InspectContext::MpcMessage { source, dest, gate, .. } = ctx {
-            let key = (gate.as_ref().to_string(), hid(*source), hid(*dest));
-            let mut seen = self.seen.lock().unwrap();
-            let offset_before = *seen.get(&key).unwrap_or(&0);
-            *seen.entry(key.clone()).or_insert(0) += data.len();
-            drop(seen);
-            if let (Some(t), Some(p)) = (&self.target, &self.pattern) {
-                if *t == key && !data.is_empty() {
-                    match p {
-                        Pattern::Flip(off, bit) => {
-                            // offset counted over the whole channel
-                            if *off >= offset_before && *off < offset_before + data.len() {
-                                data[*off - offset_before] ^= 1 << bit;
-                                *self.hits.lock().unwrap() += 1;
-                            }
+        match ctx {
+            InspectContext::MpcMessage { shard, source, dest, gate } => {
+                let sh = shard.map(u32::from);
+                let key = (gate.as_ref().to_string(), hid(*source), hid(*dest), sh);
+                let offset_before = {
+                    let mut seen = self.seen.lock().unwrap();
+                    let before = *seen.get(&key).unwrap_or(&0);
+                    *seen.entry(key.clone()).or_insert(0) += data.len();
+                    before
+                };
+                self.events.lock().unwrap().push(Ev {
+                    gate: key.0.clone(), mpc: true, a: key.1, b: key.2, shard: sh, shards: (0, 0), len: data.len(),
+                });
+                if key.0.ends_with("/verify_shuffle/reveal_m_a_c_key") {
+                    self.key_msgs.lock().unwrap().entry(key.clone()).or_default().extend_from_slice(data);
+                }
+                if !data.is_empty() {
+                    for act in &self.actions {
+                        if act.key == key {
+                            self.apply(act, offset_before, data);
                         }
-                        Pattern::Add(off, d) => {
-                            if *off >= offset_before && *off < offset_before + data.len() {
-                                let i = *off - offset_before;
-                                data[i] = data[i].wrapping_add(*d);
-                                *self.hits.lock().unwrap() += 1;
-                            }
-                        }
-                        Pattern::Zero => {
-                            if offset_before == 0 && data.iter().any(|b| *b != 0) {
-                                for b in data.iter_mut() {
-                                    *b = 0;
-                                }
-                                *self.hits.lock().unwrap() += 1;
-                            }
-                        }
-                        Pattern::Swap => {
-                            if offset_before == 0 && data.len() >= 2 {
-                                let n = data.len();
-                                if data[0] != data[n - 1] {
-                                    data.swap(0, n - 1);
-                                    *self.hits.lock().unwrap() += 1;
-                                }
-                            }
-                        }
-                        Pattern::None => {}
                     }
                 }
+            }
+            InspectContext::ShardMessage { helper, source, dest, gate } => {
+                self.events.lock().unwrap().push(Ev {
+                    gate: gate.as_ref().to_string(), mpc: false, a: hid(*helper), b: 0, shard: None,
+                    shards: (u32::from(*source), u32::from(*dest)), len: data.len(),
+                });
             }
         }
     }
@@ -117,19 +270,46 @@ pub fn normalize_gate(g: &str) -> String {
 
 fn parse_pattern(s: &str) -> Pattern {
     let p: Vec<&str> = s.split(':').collect();
+    let signed = |x: &str| -> (bool, u64) { (x.starts_with('m'), x[1..].parse().unwrap()) };
     match p[0] {
         "flip" => Pattern::Flip(p[1].parse().unwrap(), p[2].parse().unwrap()),
         "add" => Pattern::Add(p[1].parse().unwrap(), p[2].parse().unwrap()),
         "zero" => Pattern::Zero,
         "swap" => Pattern::Swap,
         "none" => Pattern::None,
+        "f25" | "f61" => {
+            let (neg, delta) = signed(p[2]);
+            Pattern::FieldAdd { f61: p[0] == "f61", elem: p[1].parse().unwrap(), neg, delta }
+        }
+        "swaprec" => Pattern::SwapRec { size: p[1].parse().unwrap(), a: p[2].parse().unwrap(), b: p[3].parse().unwrap() },
+        "macshift" => Pattern::MacShift { size: p[1].parse().unwrap(), row: p[2].parse().unwrap(), word: p[3].parse().unwrap(), delta: p[4].parse().unwrap() },
+        "replay" => Pattern::Replay { size: p[1].parse().unwrap(), from: p[2].parse().unwrap(), to: p[3].parse().unwrap() },
         x => panic!("harness: bad pattern {x}"),
     }
+}
+
+/// `<src><dst>|<shard or ->|<pattern>|<gate>` joined by `,` (`<src><dst>` = two helper digits, e.g. `13` = H1 -> H3).
+/// Every action must involve the corrupt helper: a message it sends, or a message it receives (altering what the
+/// corrupt helper receives is the corrupt helper changing its own local state, e.g. to stay in step with the
+/// values it made the honest helpers hold).
+fn parse_actions(corrupt: u8, s: &str) -> Vec<Action> {
+    s.split(',')
+        .map(|a| {
+            let f: Vec<&str> = a.split('|').collect();
+            let src: u8 = f[0][0..1].parse().unwrap();
+            let dst: u8 = f[0][1..2].parse().unwrap();
+            assert!(src == corrupt || dst == corrupt, "harness: action {a} does not involve the corrupt helper H{corrupt}");
+            let shard = if f[1] == "-" { None } else { Some(f[1].parse().unwrap()) };
+            Action { key: (f[3].to_string(), src, dst, shard), pattern: parse_pattern(f[2]), saved: Mutex::new(None), mac_key: None }
+        })
+        .collect()
 }
 
 pub enum Outcome {
     Hist(Vec<u128>),
     Abort(String),
+    /// both honest helpers finished but their output shares do not fit together
+    Inconsistent,
 }
 
 /// Runs the hybrid protocol in malicious mode on one shard... with `shards` shards and the given recorder.
@@ -139,6 +319,7 @@ async fn run_query<const SHARDS: usize>(
     records: Vec<TestHybridRecord>,
     seed: u64,
     secs: u64,
+    corrupt: Option<u8>,
 ) -> Outcome {
     let mut config = TestWorldConfig::default().with_timeout_secs(secs);
     config.seed = seed;
@@ -161,25 +342,61 @@ async fn run_query<const SHARDS: usize>(
             hybrid_protocol::<_, BA8, BA3, BA32, 3, 256>(ctx, rows, DpMechanism::NoDp, pad)
         }))
     };
-    let fut = try_join3(helper(c1, dist(i1)), helper(c2, dist(i2)), helper(c3, dist(i3)));
-    match tokio::time::timeout(std::time::Duration::from_secs(secs), fut).await {
-        Err(_) => Outcome::Abort("hang".into()),
-        Ok(Err(e)) => {
-            let d = format!("{e:?}");
-            Outcome::Abort(d.chars().take_while(|c| c.is_alphanumeric() || *c == '_').collect())
+    let abort_of = |e: Error| -> Outcome {
+        let d = format!("{e:?}");
+        Outcome::Abort(d.chars().take_while(|c| c.is_alphanumeric() || *c == '_').collect())
+    };
+    let limit = std::time::Duration::from_secs(secs);
+    let Some(corrupt) = corrupt else {
+        // honest run: all three helpers must finish; the result is reconstructed from all three
+        let fut = try_join3(helper(c1, dist(i1)), helper(c2, dist(i2)), helper(c3, dist(i3)));
+        return match tokio::time::timeout(limit, fut).await {
+            Err(_) => Outcome::Abort("hang".into()),
+            Ok(Err(e)) => abort_of(e),
+            Ok(Ok((r1, r2, r3))) => {
+                let h: Vec<BA32> = [r1[0].clone(), r2[0].clone(), r3[0].clone()].reconstruct();
+                Outcome::Hist(h.iter().map(|x| x.as_u128()).collect())
+            }
+        };
+    };
+    // Tampered run: what counts is what the two HONEST helpers do (the corrupt helper is simulated by honest code
+    // whose messages are altered; an error raised only by that code is not an abort of the query). Abort as soon as an
+    // honest helper fails; otherwise wait for both honest helpers and reconstruct from THEIR shares only:
+    // A = corrupt+1 holds (s_A, s_B), B = corrupt+2 holds (s_B, s_C): value = s_A + s_B + s_C, and s_B must agree.
+    let mut futs: Vec<Option<std::pin::Pin<Box<dyn std::future::Future<Output = Result<Vec<Vec<Replicated<BA32>>>, Error>> + '_>>>> =
+        vec![Some(Box::pin(helper(c1, dist(i1)))), Some(Box::pin(helper(c2, dist(i2)))), Some(Box::pin(helper(c3, dist(i3))))];
+    let ia = usize::from(corrupt % 3);
+    let ib = usize::from((corrupt + 1) % 3);
+    let ic = usize::from(corrupt - 1);
+    let honest = Box::pin(futures::future::try_join(futs[ia].take().unwrap(), futs[ib].take().unwrap()));
+    let cor = futs[ic].take().unwrap();
+    let both = async move {
+        match futures::future::select(honest, cor).await {
+            futures::future::Either::Left((res, _)) => res,
+            futures::future::Either::Right((_corrupt_result, honest)) => honest.await,
         }
-        Ok(Ok((r1, r2, r3))) => {
-            let h: Vec<BA32> = [r1[0].clone(), r2[0].clone(), r3[0].clone()].reconstruct();
-            Outcome::Hist(h.iter().map(|x| x.as_u128()).collect())
+    };
+    match tokio::time::timeout(limit, both).await {
+        Err(_) => Outcome::Abort("hang".into()),
+        Ok(Err(e)) => abort_of(e),
+        Ok(Ok((ra, rb))) => {
+            let mut h = vec![];
+            for (x, y) in ra[0].iter().zip(rb[0].iter()) {
+                if x.right() != y.left() {
+                    return Outcome::Inconsistent;
+                }
+                h.push((x.left() + x.right() + y.right()).as_u128());
+            }
+            Outcome::Hist(h)
         }
     }
 }
 
-fn run_blocking(shards: usize, recorder: Arc<Recorder>, pad: PaddingParameters, records: Vec<TestHybridRecord>, seed: u64, secs: u64) -> Outcome {
+fn run_blocking(shards: usize, recorder: Arc<Recorder>, pad: PaddingParameters, records: Vec<TestHybridRecord>, seed: u64, secs: u64, corrupt: Option<u8>) -> Outcome {
     let r = block_on_timeout(secs + 20, async move {
         match shards {
-            1 => run_query::<1>(recorder, pad, records, seed, secs).await,
-            2 => run_query::<2>(recorder, pad, records, seed, secs).await,
+            1 => run_query::<1>(recorder, pad, records, seed, secs, corrupt).await,
+            2 => run_query::<2>(recorder, pad, records, seed, secs, corrupt).await,
             n => panic!("harness: unsupported shard count {n}"),
         }
     });
@@ -190,8 +407,8 @@ fn run_blocking(shards: usize, recorder: Arc<Recorder>, pad: PaddingParameters, 
 }
 
 /// A helper task that panics has crashed: the query produces no output (abort).
-fn run_guarded(shards: usize, recorder: Arc<Recorder>, pad: PaddingParameters, records: Vec<TestHybridRecord>, seed: u64, secs: u64) -> Outcome {
-    match guarded(|| run_blocking(shards, recorder, pad, records, seed, secs)) {
+fn run_guarded(shards: usize, recorder: Arc<Recorder>, pad: PaddingParameters, records: Vec<TestHybridRecord>, seed: u64, secs: u64, corrupt: u8) -> Outcome {
+    match guarded(|| run_blocking(shards, recorder, pad, records, seed, secs, Some(corrupt))) {
         Ok(o) => o,
         Err(p) => Outcome::Abort(format!("crash({})", p.chars().take(70).collect::<String>().replace(' ', "_"))),
     }
@@ -205,19 +422,52 @@ fn seed_of(shards: &str, pad: &str, recs: &str) -> u64 {
     format!("{shards} {pad} {recs}").bytes().fold(0xcbf2_9ce4_8422_2325u64, |h, b| (h ^ u64::from(b)).wrapping_mul(0x0000_0100_0000_01B3))
 }
 
+/// the observed chunks in order, consecutive chunks of the same (normalised) channel merged:
+/// `<gate>|m|<src><dst>|<shard or ->` for helper-to-helper, `<gate>|x|<helper>|<src shard>><dst shard>` for
+/// shard-to-shard traffic inside one helper
+fn events_str(evs: &[Ev]) -> String {
+    let mut out: Vec<String> = vec![];
+    for e in evs {
+        let g = normalize_gate(&e.gate);
+        let t = if e.mpc {
+            format!("{g}|m|{}{}|{}", e.a, e.b, e.shard.map_or("-".to_string(), |x| x.to_string()))
+        } else {
+            format!("{g}|x|{}|{}>{}", e.a, e.shards.0, e.shards.1)
+        };
+        if out.last() != Some(&t) {
+            out.push(t);
+        }
+    }
+    out.join(",")
+}
+
 pub fn exec(req: &str) -> String {
     let t: Vec<&str> = req.split(' ').collect();
     match t[0] {
         "c02.channels" => {
             let rec = Arc::new(Recorder::default());
-            let o = run_blocking(t[1].parse().unwrap(), rec.clone(), pad_of(t[2]), c01::parse_records(t[3]), seed_of(t[1], t[2], t[3]), 60);
-            let seen = rec.seen.lock().unwrap();
-            let mut chans: Vec<String> = seen.iter().map(|((g, _, _), _)| normalize_gate(g)).collect();
-            chans.sort();
-            chans.dedup();
+            let o = run_blocking(t[1].parse().unwrap(), rec.clone(), pad_of(t[2]), c01::parse_records(t[3]), seed_of(t[1], t[2], t[3]), 60, None);
+            let evs = rec.events.lock().unwrap();
             match o {
-                Outcome::Hist(_) => chans.join(","),
+                Outcome::Hist(_) => events_str(&evs),
                 Outcome::Abort(k) => format!("abort:{k}"),
+                Outcome::Inconsistent => "abort:inconsistent".into(),
+            }
+        }
+        "c02.shardtraffic" => {
+            // shard-to-shard traffic inside each helper (outside the single-corrupt-helper threat model: all shards of
+            // a helper are one party): distinct normalised gates with the number of chunks, for the evidence
+            let rec = Arc::new(Recorder::default());
+            let o = run_blocking(t[1].parse().unwrap(), rec.clone(), pad_of(t[2]), c01::parse_records(t[3]), seed_of(t[1], t[2], t[3]), 60, None);
+            let mut m: std::collections::BTreeMap<String, usize> = Default::default();
+            for e in rec.events.lock().unwrap().iter().filter(|e| !e.mpc) {
+                *m.entry(normalize_gate(&e.gate)).or_insert(0) += 1;
+            }
+            match o {
+                Outcome::Hist(_) if m.is_empty() => "-".into(),
+                Outcome::Hist(_) => m.iter().map(|(g, n)| format!("{g}:{n}")).collect::<Vec<_>>().join(","),
+                Outcome::Abort(k) => format!("abort:{k}"),
+                Outcome::Inconsistent => "abort:inconsistent".into(),
             }
         }
         "c02.tamper" => {
@@ -225,23 +475,54 @@ pub fn exec(req: &str) -> String {
             let seed = seed_of(t[1], t[2], t[3]);
             let key = format!("{} {} {}", t[1], t[2], t[3]);
             let cached = HONEST.lock().unwrap().get(&key).cloned();
-            let honest = match cached {
+            let (honest, secs, key_msgs) = match cached {
                 Some(h) => h,
                 None => {
-                    let honest = run_blocking(shards, Arc::new(Recorder::default()), pad_of(t[2]), c01::parse_records(t[3]), seed, 60);
+                    let t0 = std::time::Instant::now();
+                    let rec0 = Arc::new(Recorder::default());
+                    let honest = run_blocking(shards, rec0.clone(), pad_of(t[2]), c01::parse_records(t[3]), seed, 60, None);
                     let Outcome::Hist(honest) = honest else { return "honest-run-failed".into() };
-                    HONEST.lock().unwrap().insert(key, honest.clone());
-                    honest
+                    // a tampered run gets three times the honest run's time (at least 12 s) before it counts as a hang
+                    let secs = std::cmp::max(12, 3 * t0.elapsed().as_secs() + 3);
+                    let km = rec0.key_msgs.lock().unwrap().clone();
+                    HONEST.lock().unwrap().insert(key, (honest.clone(), secs, km.clone()));
+                    (honest, secs, km)
                 }
             };
             let src: u8 = t[4][1..].parse().unwrap();
-            let dst: u8 = t[5][1..].parse().unwrap();
-            let rec = Arc::new(Recorder {
-                target: Some((t[7].to_string(), src, dst)),
-                pattern: Some(parse_pattern(t[6])),
-                ..Default::default()
-            });
-            let o = run_guarded(shards, rec.clone(), pad_of(t[2]), c01::parse_records(t[3]), seed, 12);
+            let mut actions = parse_actions(src, t[5]);
+            for a in &mut actions {
+                if let Pattern::MacShift { word, .. } = a.pattern {
+                    // The opened key of that shuffle (same shard): XOR of the three shares sent H1->H2, H2->H3, H3->H1.
+                    // The runs are deterministic (fixed PRSS seed), so this is the key of the tampered run as well. A
+                    // real helper reads it off the key share its left peer sends it (see DESIGN.md 10.4, finding F14).
+                    let Some(cut) = a.key.0.rfind('/') else { continue };
+                    let kg = format!("{}/verify_shuffle/reveal_m_a_c_key", &a.key.0[..cut]);
+                    let mut k = 0u32;
+                    let mut found = 0;
+                    for (s_, d_) in [(1u8, 2u8), (2, 3), (3, 1)] {
+                        if let Some(b) = key_msgs.get(&(kg.clone(), s_, d_, a.key.3)) {
+                            if b.len() >= 4 * word + 4 {
+                                k ^= u32::from_le_bytes(b[4 * word..4 * word + 4].try_into().unwrap());
+                                found += 1;
+                            }
+                        }
+                    }
+                    if found == 3 {
+                        a.mac_key = Some(k);
+                    }
+                }
+            }
+            let rec = Arc::new(Recorder { actions, ..Default::default() });
+            let t1 = std::time::Instant::now();
+            let o = run_guarded(shards, rec.clone(), pad_of(t[2]), c01::parse_records(t[3]), seed, secs, src);
+            if let Ok(dir) = std::env::var("VERIF_OUT") {
+                // wall time per case, for tuning the tiers (not part of the trace: not deterministic)
+                use std::io::Write;
+                if let Ok(mut f) = std::fs::OpenOptions::new().create(true).append(true).open(format!("{dir}/c02_tamper.times")) {
+                    let _ = writeln!(f, "{:.1}\t{}\t{}", t1.elapsed().as_secs_f32(), t[1], t[5].chars().take(120).collect::<String>());
+                }
+            }
             let hits = *rec.hits.lock().unwrap();
             match o {
                 Outcome::Abort(k) => format!("abort-or-same abort:{k}"),
@@ -249,49 +530,223 @@ pub fn exec(req: &str) -> String {
                     if hits == 0 { "untouched".into() } else { "abort-or-same same".into() }
                 }
                 Outcome::Hist(h) => format!("changed {}", nat_list(&h)),
+                Outcome::Inconsistent => "changed inconsistent-output-shares".into(),
             }
         }
         _ => panic!("harness: unknown request {req}"),
     }
 }
 
-static HONEST: Mutex<std::collections::BTreeMap<String, Vec<u128>>> = Mutex::new(std::collections::BTreeMap::new());
+type KeyMsgs = std::collections::BTreeMap<(String, u8, u8, Option<u32>), Vec<u8>>;
+static HONEST: Mutex<std::collections::BTreeMap<String, (Vec<u128>, u64, KeyMsgs)>> = Mutex::new(std::collections::BTreeMap::new());
 
-/// honest run listing every concrete channel (gate, src, dst, bytes)
-fn list_channels(shards: usize, pad: &str, recs: &str) -> Vec<(String, u8, u8, usize)> {
+type Chan = (String, u8, u8, Option<u32>, usize);
+
+/// honest run listing every concrete helper-to-helper channel (gate, src, dst, shard, bytes)
+fn list_channels(shards: usize, pad: &str, recs: &str) -> Vec<Chan> {
     let rec = Arc::new(Recorder::default());
     let sh = shards.to_string();
-    let _ = run_blocking(shards, rec.clone(), pad_of(pad), c01::parse_records(recs), seed_of(&sh, pad, recs), 60);
+    let _ = run_blocking(shards, rec.clone(), pad_of(pad), c01::parse_records(recs), seed_of(&sh, pad, recs), 60, None);
     let seen = rec.seen.lock().unwrap();
-    seen.iter().map(|((g, s, d), n)| (g.clone(), *s, *d, *n)).collect()
+    seen.iter().map(|((g, s, d, x), n)| (g.clone(), *s, *d, *x, *n)).collect()
 }
 
-fn gen_tamper(rng: &mut Rng, thorough: bool, shards: usize, pad: &str, recs: &str, out: &mut Vec<String>) {
-    let chans = list_channels(shards, pad, recs);
-    // group concrete channels by normalised gate class
-    let mut classes: std::collections::BTreeMap<String, Vec<(String, u8, u8, usize)>> = Default::default();
-    for c in chans {
-        if c.3 > 0 {
-            classes.entry(normalize_gate(&c.0)).or_default().push(c);
+fn act(c: &Chan, pat: &str) -> String {
+    format!("{}{}|{}|{pat}|{}", c.1, c.2, c.3.map_or("-".to_string(), |x| x.to_string()), c.0)
+}
+
+fn prev_h(h: u8) -> u8 { (h + 1) % 3 + 1 }
+fn next_h(h: u8) -> u8 { h % 3 + 1 }
+
+/// Fp25519 lanes per record of the PRF evaluation (`PRF_CHUNK`)
+const LANES: usize = crate::protocol::ipa_prf::PRF_CHUNK;
+
+fn blind_pattern(rng: &mut Rng, k: usize, n: usize) -> String {
+    match k % 5 {
+        0 => format!("flip:0:{}", rng.below(8)),
+        1 => format!("flip:{}:{}", n - 1, rng.below(8)),
+        2 => format!("add:{}:{}", rng.usize_below(n), 1 + rng.below(255)),
+        3 => "zero".to_string(),
+        _ => format!("flip:{}:{}", rng.usize_below(n), rng.below(8)),
+    }
+}
+
+/// candidate record sizes of a channel that carried `n` bytes
+fn record_sizes(n: usize) -> Vec<usize> {
+    let mut v: Vec<usize> = (2..=16).filter(|m| n % m == 0).map(|m| n / m).collect();
+    for s in [1usize, 4, 8, 32] {
+        if n >= 2 * s && n % s == 0 {
+            v.push(s);
         }
     }
+    v.sort_unstable();
+    v.dedup();
+    v
+}
+
+fn gen_tamper(rng: &mut Rng, thorough: bool, shards: usize, pad: &str, recs: &str, budget: Option<(usize, usize)>, out: &mut Vec<String>) {
+    let chans = list_channels(shards, pad, recs);
+    let head = format!("c02.tamper {shards} {pad} {recs}");
+    // group concrete channels by normalised gate class
+    let mut classes: std::collections::BTreeMap<String, Vec<Chan>> = Default::default();
+    for c in &chans {
+        if c.4 > 0 {
+            classes.entry(normalize_gate(&c.0)).or_default().push(c.clone());
+        }
+    }
+    let mut cases: Vec<String> = vec![];
+    // 1. blind byte-level changes, every gate class
     let per_class = if thorough { 12 } else { 1 };
     for (ci, (_class, members)) in classes.iter().enumerate() {
         for k in 0..per_class {
-            let (g, s, d, n) = rng.pick(members).clone();
-            let pat = match (ci + k) % 5 {
-                0 => format!("flip:0:{}", rng.below(8)),
-                1 => format!("flip:{}:{}", n - 1, rng.below(8)),
-                2 => format!("add:{}:{}", rng.usize_below(n), 1 + rng.below(255)),
-                3 => "zero".to_string(),
-                _ => format!("flip:{}:{}", rng.usize_below(n), rng.below(8)),
-            };
-            out.push(format!("c02.tamper {shards} {pad} {recs} H{s} H{d} {pat} {g}"));
+            let c = rng.pick(members).clone();
+            // a forged shuffle cardinality is used as an allocation size by the receiving helper: values beyond
+            // 2^16 rows end in `capacity overflow` panics or in a failed allocation that kills the whole test
+            // process (an abort as far as C02 goes, but not one the harness can observe), so only the two low
+            // bytes are altered
+            let n = if _class.ends_with("cardinality") { c.4.min(2) } else { c.4 };
+            cases.push(format!("{head} H{} {}", c.1, act(&c, &blind_pattern(rng, ci + k, n))));
         }
     }
+    // 1b. the row-carrying messages of the shuffles: every (sender, receiver) pair, not just one per class
+    //     (each direction is checked by a different hash comparison of `verify_shuffle`)
+    for (ci, (class, members)) in classes.iter().enumerate() {
+        if class.ends_with("/transfer_x_y") || class.ends_with("/transfer_c") {
+            for (k, c) in members.iter().enumerate() {
+                cases.push(format!("{head} H{} {}", c.1, act(c, &blind_pattern(rng, ci + k + 4, c.4))));
+            }
+        }
+    }
+    // 2. additive offsets at field-element granularity
+    let reps = if thorough { 6 } else { 1 };
+    for (class, members) in &classes {
+        let f61 = class.ends_with("generate_proof") || class.ends_with("p_times_q") || class.ends_with("verify_proof/diff");
+        let f25 = class.starts_with("eval_prf/");
+        if !(f61 || f25) {
+            continue;
+        }
+        let size = if f61 { 8 } else { 32 };
+        for k in 0..reps {
+            let c = rng.pick(members).clone();
+            if c.4 < size {
+                continue;
+            }
+            let elems = c.4 / size;
+            let e = if k == 0 { 0 } else { rng.usize_below(elems) };
+            let sign = if rng.bool() { 'p' } else { 'm' };
+            let tag = if f61 { "f61" } else { "f25" };
+            cases.push(format!("{head} H{} {}", c.1, act(&c, &format!("{tag}:{e}:{sign}{}", 1 + rng.below(1000)))));
+        }
+    }
+    // 3. lane-correlated offsets on a vectorised MAC-protected multiplication, replayed in the opening:
+    //    +d on lane i, -d on lane j of the message to the left peer in `x*y` (the `r*x*y` duplicate untouched),
+    //    and the same offsets on the copy opened towards the right peer
+    let find = |suffix: &str, s: u8, d: u8, x: Option<u32>| -> Option<Chan> {
+        chans.iter().find(|c| c.0.ends_with(suffix) && c.1 == s && c.2 == d && c.3 == x).cloned()
+    };
+    let shard_ids: Vec<Option<u32>> = {
+        let mut v: Vec<Option<u32>> = chans.iter().map(|c| c.3).collect();
+        v.sort();
+        v.dedup();
+        v
+    };
+    let n_lane = if thorough { 12 } else { 3 };
+    for k in 0..n_lane {
+        let corrupt = (k % 3) as u8 + 1;
+        let x = *rng.pick(&shard_ids);
+        let (Some(m), Some(o), Some(i1), Some(i2)) = (
+            find("eval_prf/malicious_protocol/mult_mask_with_p_r_f_input", corrupt, prev_h(corrupt), x),
+            find("eval_prf/malicious_protocol/revealz", corrupt, next_h(corrupt), x),
+            // what the corrupt helper itself receives in the opening (so that it opens the same altered value
+            // and stays in step with the honest helpers)
+            find("eval_prf/malicious_protocol/revealz", prev_h(corrupt), corrupt, x),
+            find("eval_prf/malicious_protocol/revealz", next_h(corrupt), corrupt, x),
+        ) else { continue };
+        let records = m.4 / (32 * LANES);
+        let r = rng.usize_below(records.max(1));
+        // lanes that carry real rows (the last record may be partly padding)
+        let (i, j) = if k == 0 { (0, 1) } else {
+            let i = rng.usize_below(LANES.min(8));
+            let mut j = rng.usize_below(LANES.min(8));
+            if j == i { j = (i + 1) % LANES.min(8); }
+            (i, j)
+        };
+        let d = 1 + rng.below(1000);
+        let (ei, ej) = (r * LANES + i, r * LANES + j);
+        let mut acts = vec![];
+        for c in [&m, &o, &i1, &i2] {
+            acts.push(act(c, &format!("f25:{ei}:p{d}")));
+            acts.push(act(c, &format!("f25:{ej}:m{d}")));
+        }
+        cases.push(format!("{head} H{corrupt} {}", acts.join(",")));
+    }
+    // 4. swapping two records / replaying an earlier record, on channels that carry several records
+    let n_swap = if thorough { 40 } else { 10 };
+    let multi: Vec<&Chan> = chans.iter().filter(|c| !record_sizes(c.4).is_empty() && c.4 >= 2).collect();
+    // prefer the data-carrying classes
+    let wanted = ["transfer_x_y", "transfer_c", "reveal", "revealz", "reveal_r", "mult_mask_with_p_r_f_input", "upgrade", "generate_proof", "bit0", "hashes_h3to_h1"];
+    for k in 0..n_swap {
+        let w = wanted[k % wanted.len()];
+        let cand: Vec<&Chan> = multi.iter().filter(|c| c.0.ends_with(w)).copied().collect();
+        if cand.is_empty() {
+            continue;
+        }
+        let c: Chan = (*rng.pick(&cand)).clone();
+        let sizes = record_sizes(c.4);
+        let size = *rng.pick(&sizes);
+        let n = c.4 / size;
+        let a = rng.usize_below(n);
+        let mut b = rng.usize_below(n);
+        if a == b { b = (a + 1) % n; }
+        let (lo, hi) = (a.min(b), a.max(b));
+        let pat = if k % 2 == 0 { format!("swaprec:{size}:{lo}:{hi}") } else { format!("replay:{size}:{lo}:{hi}") };
+        cases.push(format!("{head} H{} {}", c.1, act(&c, &pat)));
+    }
+    // 5. MAC-consistent row change in a verified shuffle by H2, which learns the keys from H1's early opening:
+    //    `c1` (H2 -> H3) gets `delta` in a data word and `key * delta` in the tag; the same change on `c2` (H3 -> H2)
+    //    keeps H2's own share in step
+    let mut macshift: Vec<String> = vec![];
+    for (sh_gate, size) in [("aggregate/shuffle/transfer_c", 8usize), ("input_shuffle/transfer_c", 18usize)] {
+        let x = shard_ids[0];
+        let (Some(c1), Some(c2)) = (find(sh_gate, 2, 3, x), find(sh_gate, 3, 2, x)) else { continue };
+        if c1.4 % size != 0 || c1.4 < size {
+            continue;
+        }
+        let row = rng.usize_below(c1.4 / size);
+        let pat = format!("macshift:{size}:{row}:0:1");
+        macshift.push(format!("{head} H2 {},{}", act(&c1, &pat), act(&c2, &pat)));
+    }
+    match budget {
+        // `(blind, structured)`: a sample of each group (the lane-correlated cases always included)
+        Some((bb, bs)) => {
+            let (mut blind, structured): (Vec<String>, Vec<String>) = cases.into_iter().partition(|c| {
+                let a = c.rsplit(' ').next().unwrap_or("");
+                !a.contains(',') && ["|flip:", "|add:", "|zero|"].iter().any(|p| a.contains(p))
+            });
+            let (lane, mut rest): (Vec<String>, Vec<String>) = structured.into_iter().partition(|c| c.matches("f25:").count() == 8);
+            if blind.len() > bb {
+                rng.shuffle(&mut blind);
+                blind.truncate(bb);
+            }
+            if rest.len() + lane.len() > bs {
+                rng.shuffle(&mut rest);
+                rest.truncate(bs.saturating_sub(lane.len()));
+            }
+            out.extend(blind);
+            out.extend(lane);
+            out.extend(rest);
+        }
+        None => out.extend(cases),
+    }
+    out.extend(macshift);
 }
 
 pub const RECS: &str = "i:11:3,c:11:2,i:12:3,c:12:5,c:13:1,c:13:2,i:14:9,i:15:1,c:15:4,c:16:3,i:17:3,c:17:1";
+
+/// enough keys that no shard runs empty at any stage (finding F8)
+fn big_records(rng: &mut Rng) -> String {
+    c01::rec_str(&c01::gen_records(rng, 70, 256, 8))
+}
 
 #[test]
 fn verif_c02_tamper() {
@@ -299,9 +754,13 @@ fn verif_c02_tamper() {
         "c02_tamper",
         |rng, thorough| {
             let mut out = vec![];
-            gen_tamper(rng, thorough, 1, "0", RECS, &mut out);
+            // quick: every gate class once with a blind change + 16 structured cases
+            gen_tamper(rng, thorough, 1, "0", RECS, if thorough { None } else { Some((usize::MAX, 16)) }, &mut out);
+            // two shards: helper-to-helper traffic of either shard
+            let big = big_records(rng);
+            gen_tamper(rng, thorough, 2, "0", &big, Some(if thorough { (60, 60) } else { (2, 4) }), &mut out);
             if thorough {
-                gen_tamper(rng, thorough, 1, "1", RECS, &mut out);
+                gen_tamper(rng, thorough, 1, "1", RECS, None, &mut out);
             }
             out
         },
@@ -314,8 +773,13 @@ fn verif_c02_channels() {
     run_suite(
         "c02_channels",
         |rng, _thorough| {
-            let big = c01::rec_str(&c01::gen_records(rng, 70, 256, 8));
-            vec![format!("c02.channels 1 0 {RECS}"), format!("c02.channels 1 1 {RECS}"), format!("c02.channels 2 0 {big}")]
+            let big = big_records(rng);
+            vec![
+                format!("c02.channels 1 0 {RECS}"),
+                format!("c02.channels 1 1 {RECS}"),
+                format!("c02.channels 2 0 {big}"),
+                format!("c02.shardtraffic 2 0 {big}"),
+            ]
         },
         exec,
     );
